@@ -1,5 +1,6 @@
 import PlcProofs.Lemmas.Climb
 import PlcProofs.Lemmas.MirrorExpr
+import PlcProofs.Lemmas.MirrorStmt
 import PlcModel.Parse.Pou
 
 /-!
@@ -21,6 +22,14 @@ What is proved here:
   exactly the tree the grammar actions build for it, with the fuel the driver really uses
   (`Parse.fuelFor`); `mirror_reads_any_parenthesisation` is the general form (redundant parentheses
   anywhere leave no node);
+
+* `mirror_statement_list_roundtrip` — one level up, again for the mirror itself (`Parse.statementList`,
+  `statementsOrEmpty`, `statement`, `ifStatement`, `whileStatement`, `repeatStatement`): the token list of every
+  statement list built from assignments to named variables, IF … THEN … [ELSE …] END_IF, WHILE … DO … END_WHILE,
+  REPEAT … UNTIL … END_REPEAT, EXIT and RETURN — nested to any depth, bodies of any length, any `MX.S`
+  expression as condition or right-hand side — is read back as exactly the list of trees the grammar actions
+  build: every statement, in order, each body under the statement it was written in (nothing dropped,
+  duplicated, reordered or re-nested), with the fuel the driver really uses;
 
 The executable mirror of the whole grammar (`PlcModel/Parse/*.lean`) is tied to `parse_program` by
 the correspondence check (every fixture, every production of the reference grammar, every ordered
@@ -90,6 +99,26 @@ example : Ends [⟨false, "Semicolon", 0, 0, 0, 0, [';']⟩] := by
   intro t ts h
   cases h
   exact ⟨by decide, by decide⟩
+
+/-- **Round trip of statement lists through the parser mirror** (statement nesting).  `K` is the keyword after the
+list (END_IF, ELSE, UNTIL, END_WHILE, END_PROGRAM, …). -/
+theorem mirror_statement_list_roundtrip (l : MX.Stl) (hl : l.WF) (hne : l.isNil = false) (K : Item) (R : List Item)
+    (hK : MX.isCloser K.ty = true) :
+    Parse.statementList (Parse.fuelFor (l.toks ++ K :: R).length) (l.toks ++ K :: R) = some (l.sxs, K :: R) :=
+  MX.statementList_roundtrip l hl hne K R hK _ (Nat.le_refl _)
+
+/-- non-vacuity: `WHILE a DO IF b THEN x := c; ELSE EXIT; END_IF; END_WHILE;` meets `WF` -/
+example :
+    let id (s : String) : Item := ⟨false, "Identifier", 0, 0, 0, 0, s.toList⟩
+    let kw (ty s : String) : Item := ⟨false, ty, 0, 0, 0, 0, s.toList⟩
+    let semi := kw "Semicolon" ";"
+    (MX.Stl.cons (.whileS (kw "While" "WHILE") (kw "Do" "DO") (.leaf (id "a"))
+        (.cons (.ifElse (kw "If" "IF") (kw "Then" "THEN") (.leaf (id "b"))
+                  (.cons (.assign (id "x") (kw "Assignment" ":=") (.leaf (id "c"))) semi .nil)
+                  (kw "Else" "ELSE") (.cons (.exitS (kw "Exit" "EXIT")) semi .nil) (kw "EndIf" "END_IF")) semi .nil)
+        (kw "EndWhile" "END_WHILE")) semi .nil).WF := by
+  intro id kw semi
+  exact ⟨⟨rfl, rfl, rfl, rfl, ⟨⟨rfl, rfl, rfl, rfl, rfl, ⟨⟨rfl, rfl, rfl⟩, rfl, trivial⟩, ⟨rfl, rfl, trivial⟩, rfl⟩, rfl, trivial⟩, rfl⟩, rfl, trivial⟩
 
 /-! ### non-vacuity: concrete trees over the generated table's levels
 (`+`,`-` at level 5 and `*` at level 6).  The executable mirror itself is evaluated by the compiled
